@@ -443,3 +443,114 @@ Example ex_describe_repack_same_tables :
   | None => False
   end.
 Proof. exact ex_repack_same_tables. Qed.
+
+(* ---- (c) the CONTENTS: describe + unpack, packed by gensquashfs --pack-file, read back by the reader models ----
+   (coq/ImgDescribe/HostModel.v, ContentsProofs.v, ExampleContents.v)
+   So far file contents and the file inodes of the data path were abstract ([fb] above; compared only by the tool oracle).
+   Here the cycle is closed through ImgE2E.pack_all (C01 section 7: fstree -> xattrs -> C08 data path -> sqfs_writer_finish)
+   and ImgE2E.read_all (the models of the real readers: tree, fragment table, sqfs_data_reader_read, xattrs):
+
+     rdsquashfs -u / [-p dir] IMG        per regular file q of the tree one host file <udir>/<q> holding data q   [unpack_host]
+     rdsquashfs -d [-p uroot] IMG        the listing (C16 DescribeModel); `file` lines carry <uroot>/<q>        [location]
+     gensquashfs [-D dir] -F listing     packdir = -D, else the pack file name up to its last '/' (options.c)     [packdir_of]
+                                         pack_files: chdir(packdir), open(node->data.file.input_file) (mkfs.c)   [gens_dir],
+                                         adds = what fstree_from_file_stream does with the BYTES of the listing  [listing_calls]
+                                         contents of tree path p = the host file at the resolved location of p   [repack_input]
+
+   MODEL ASSUMPTION: the host file system between the two tools is a finite map from path strings to byte strings;
+   a relative path is resolved by prefixing the working directory textually (at_cwd).  What the kernel adds (symbolic
+   links, '//', '.', '..') is outside; the tool level leg of props/C16 runs the real cycle on real files and compares the
+   sha256 of every regular file, and its open() log is compared with [at_cwd pcwd (location uroot q)].
+
+   location_resolves: if the two tools look at the same place ([same_place]: with an absolute unpack root always; with a
+   relative one or none iff gensquashfs' pack directory (+ the unpack root) is the directory the files were unpacked into),
+   the location of every described regular file, opened from the directory pack_files works in, is the host file unpack
+   wrote for that entry — different entries never share a host file (join is injective on '/'-free names).
+   describe_repack_contents: for every tree in the domain of the C16 theorems (lt_okb, wf_root) and ARBITRARY contents
+   [data] (any sizes: empty, below a block, several blocks, zero blocks — the hypotheses do not mention them beyond
+   e2e_okb's < 2^31 - 1 bytes per file), whenever the packing run succeeds and ImgE2E's decidable run-level hypotheses hold,
+   describe succeeds, the parser accepts the listing and performs root_calls, and read_all on the BYTES of the new image
+   returns, in directory order, the same paths with the same type + permission bits, owner, symlink target and device
+   number as the tree that was described, for every regular file exactly the unpacked bytes, and no bytes for anything else.
+   Flags per file (uflags), xattr sources, compressor options and the worker schedule are arbitrary.
+   Hypotheses that remain: those of pack_all_reads_back (the two compressor contracts, limit <= 65535, e2e_okb on the
+   run, loop bounds) — a bound on the input implying pack_all = PDone / e2e_okb is not proved (as in C01 section 7). *)
+From SqfsV Require C08.DedupModel Image.FinishModel C05.RBase ImgReader.Embed.
+From SqfsV Require ImgE2E.PackAll ImgE2E.Hyps.
+From SqfsV Require Import ImgDescribe.HostModel ImgDescribe.ContentsProofs ImgDescribe.ExampleContents.
+
+Theorem location_resolves : forall uroot cwd_u unp cwd_g opt_D infile pcwd lt data,
+  lt_okb lt = true -> wf_root (describe_input [] lt) ->
+  gens_dir cwd_g opt_D infile = Some pcwd -> same_place uroot pcwd (unpack_dir cwd_u unp) ->
+  forall q, In q (file_paths lt) ->
+    host_read (unpack_host (unpack_dir cwd_u unp) lt data) (at_cwd pcwd (location uroot q)) = Some (data q).
+Proof. exact location_resolves_p. Qed.
+Print Assumptions location_resolves.
+
+Theorem describe_repack_contents :
+  forall (hashf : list N -> N)
+         (dcompress : list N -> option (list N)) (duncompress : list N -> nat -> option (list N)),
+  (forall b c, dcompress b = Some c ->
+     (length c < length b)%nat /\ forall n, (length b <= n)%nat -> duncompress c n = Some b) ->
+  forall compress uncompress, meta_contract16 compress uncompress ->
+  forall uc, Embed.uc_meets uncompress uc ->
+  forall limit, limit <= 65535 ->
+  forall half cfg d uroot lt (data : FstreeModel.path -> list N) cwd_u unp cwd_g opt_D infile pcwd flags xattrs opts sched r,
+  lt_okb lt = true -> wf_root (describe_input [] lt) -> uroot_ok uroot ->
+  gens_dir cwd_g opt_D infile = Some pcwd -> same_place uroot pcwd (unpack_dir cwd_u unp) ->
+  let host := unpack_host (unpack_dir cwd_u unp) lt data in
+  let listing := fst (describe uroot (describe_input [] lt)) in
+  let pi := repack_input d listing host pcwd flags xattrs opts sched in
+  PackAll.pack_all hashf dcompress duncompress half compress limit cfg pi = PackAll.PDone r ->
+  Hyps.e2e_okb half cfg pi r = true ->
+  forall depth efuel fuel,
+  (Hyps.e2e_depth r <= depth)%nat -> (Hyps.e2e_efuel r <= efuel)%nat -> (Hyps.e2e_fuel r <= fuel)%nat ->
+  exists out,
+    snd (describe uroot (describe_input [] lt)) = true /\
+    listing_calls listing = Some (root_calls uroot (describe_input [] lt)) /\
+    PackAll.read_all uc uncompress duncompress (FinishModel.image_bytes (PackAll.r_w r)) depth efuel fuel = RBase.Ok out /\
+    map (fun e => entry_view (PackAll.re_path e, PackAll.re_view e, PackAll.re_ino e)) out = map entry_view (flat_lt [] lt) /\
+    (forall e, In e out -> ekind_of (pv_kind (PackAll.re_view e)) = EFile ->
+               In (PackAll.re_path e) (file_paths lt) /\ PackAll.re_data e = Some (data (PackAll.re_path e))) /\
+    (forall e, In e out -> ekind_of (pv_kind (PackAll.re_view e)) <> EFile -> PackAll.re_data e = None) /\
+    (forall q, In q (file_paths lt) ->
+               exists e, In e out /\ PackAll.re_path e = q /\ PackAll.re_data e = Some (data q)).
+Proof. exact describe_repack_contents_p. Qed.
+Print Assumptions describe_repack_contents.
+
+(* ---- non-vacuity: d/'a b' (5 bytes), e (empty), 'm\ x' (8195 bytes = 2 blocks + tail), z (4096 zeros: a sparse block),
+   unpacked below the RELATIVE unpack root 'un pack' by an rdsquashfs running in /w, packed by gensquashfs -D /w running in / ---- *)
+Example ex_describe_repack_contents_hyps :
+  lt_okb c_lt = true /\ wf_root (describe_input [] c_lt) /\ uroot_ok c_uroot /\
+  gens_dir c_cwd_g c_optD c_infile = Some c_pcwd /\ same_place c_uroot c_pcwd c_udir /\
+  file_paths c_lt = [[y_d; y_ab]; [y_e]; [c_m]; [y_z]] /\
+  map fst c_host =
+    [ [47; 119; 47; 117; 110; 32; 112; 97; 99; 107; 47; 100; 47; 97; 32; 98];
+      [47; 119; 47; 117; 110; 32; 112; 97; 99; 107; 47; 101];
+      [47; 119; 47; 117; 110; 32; 112; 97; 99; 107; 47; 109; 92; 32; 120];
+      [47; 119; 47; 117; 110; 32; 112; 97; 99; 107; 47; 122] ] /\
+  map (fun kv => N.of_nat (length (snd kv))) c_host = [5; 0; 8195; 4096].
+Proof. exact ex_contents_hyps. Qed.
+Example ex_describe_repack_contents_run :
+  match c_run with
+  | PackAll.PDone r =>
+      Hyps.e2e_okb c_half c_cfg c_pi r = true /\
+      PostModel.pp_files (PackAll.r_pp r) = [[y_d; y_ab]; [y_e]; [c_m]; [y_z]] /\
+      match PackAll.read_all (ReadImage.uc_of (TreeModel.img_uncompress 3)) (TreeModel.img_uncompress 3) DedupModel.toy_uncompress
+                             (FinishModel.image_bytes (PackAll.r_w r))
+                             (Hyps.e2e_depth r) (Hyps.e2e_efuel r) (Hyps.e2e_fuel r) with
+      | RBase.Ok out =>
+          map (fun e => entry_view (rtriple e)) out = map entry_view (flat_lt [] c_lt) /\
+          map (fun e => (PackAll.re_path e, pv_mode (PackAll.re_view e), PackAll.re_data e)) out =
+            [ ([], 16877, None);
+              ([y_d], 16832, None);
+              ([y_d; y_ab], 33188, Some c_ab_data);
+              ([y_d; y_q], 41471, None);
+              ([y_e], 33024, Some []);
+              ([c_m], 33152, Some c_m_data);
+              ([y_z], 33188, Some c_z_data) ]
+      | _ => False
+      end
+  | _ => False
+  end.
+Proof. exact ex_contents_run. Qed.
